@@ -55,6 +55,60 @@ func runC20(c *Ctx) {
 		return ok && u.Op == token.MUL && u.X == ssa.Value(unsafeG) && f.Pol == pol
 	}
 
+	// ---- R4b the switch itself: scrubbing is on unless the LAST Init asked for unsafe logging
+	obS := c.Obl("R4", "common/log.unsafeLogging#writers", "the scrubbing switch is written only by log.Init, with Init's own 'unsafe' argument, on every path on which Init succeeds (whatever 'enable' says): scrubbing follows the last Init")
+	if initF := p.Func("common/log:Init"); initF == nil || unsafeG == nil {
+		obS.Undecide("log.Init or unsafeLogging not found")
+	} else {
+		c.Touch(p.FuncKey(initF))
+		badS := ""
+		var stores []ssa.Instruction
+		for _, fn := range p.Funcs {
+			allInstrs(fn, func(in ssa.Instruction) {
+				st, ok := in.(*ssa.Store)
+				if !ok || st.Addr != ssa.Value(unsafeG) {
+					return
+				}
+				if fn.Name() == "init" && fn.Pkg == initF.Pkg && fn != initF {
+					return // package initialiser (zero value / constant)
+				}
+				if fn != initF {
+					badS = "unsafeLogging is written in " + p.FuncKey(fn)
+					return
+				}
+				var up *ssa.Parameter
+				for _, q := range initF.Params {
+					if q.Name() == "unsafe" || isBoolType(q.Type()) && q == initF.Params[len(initF.Params)-1] {
+						up = q
+					}
+				}
+				if up == nil || unspill(st.Val) != ssa.Value(up) {
+					badS = "Init stores something other than its 'unsafe' argument at " + p.InstrPos(st)
+					return
+				}
+				stores = append(stores, st)
+			})
+		}
+		set := map[ssa.Instruction]bool{}
+		for _, st := range stores {
+			set[st] = true
+		}
+		iff := p.Facts(initF)
+		for _, r := range iff.SuccessReturns() {
+			if entryReachesWithout(initF, r, set) {
+				badS = "Init can succeed (return at " + p.InstrPos(r) + ") without storing its 'unsafe' argument: an earlier setting stays in force"
+			}
+		}
+		if len(stores) == 0 && badS == "" {
+			badS = "Init never stores the switch"
+		}
+		if badS != "" {
+			obS.Violate("%s", badS)
+		} else {
+			obS.HoldNT("%d store(s) in Init, on every successful path", len(stores))
+		}
+	}
+
 	// ---- R1 type lemma
 	netErr := p.stdIface("net", "Error")
 	var asCall *ssa.Call
